@@ -1262,6 +1262,13 @@ static bool model_cmp_at(const struct mnode *want, const struct mnode *got, int 
             if (rc == 1) {
                 mon_flag(F_NUM_INEXACT_WITHIN_TOL);
             }
+            if (rc < 0 && isinf(got->num) && !isinf(want->num)) {
+                /* own failure class: a finite value was printed as a literal that reads as infinity */
+                mon_violation("C11:number:finite-value-reads-back-as-infinity",
+                              "stage %s at $%s: expected %.17g (bits %016llx), found %s infinity: the printed literal overflows when read",
+                              stage, path, want->num, (unsigned long long)bits_of(want->num), got->num < 0 ? "negative" : "positive");
+                return false;
+            }
             if (rc < 0) {
                 tree_violation(stage, "number", path,
                                "expected %.17g (bits %016llx, %s), found %.17g (bits %016llx); |diff|/|expected| = %.3g",
@@ -1573,4 +1580,1021 @@ static void check_iterate_control(struct aws_json_value *lib, const struct mnode
     }
     mon_flag(F_ITERATE_EARLY_STOP);
     collect_free(&c);
+}
+
+/* ------------------------------------------------------------------ building through the API */
+struct budget {
+    int nodes;    /* nodes still allowed */
+    int maxdepth; /* container nesting allowed below the current node */
+};
+
+static struct aws_json_value *build_api(struct mon_rng *r, struct mnode **out, struct budget *bg, int depth);
+
+/* a cursor that is NOT followed by NUL: the library must honour the length */
+static struct aws_byte_cursor unterminated(const uint8_t *p, size_t n, uint8_t **storage) {
+    uint8_t *s = malloc(n + 4);
+    if (n) {
+        memcpy(s, p, n);
+    }
+    memcpy(s + n, "Xy\"]", 4);
+    *storage = s;
+    return aws_byte_cursor_from_array(s, n);
+}
+
+static struct aws_json_value *build_scalar(struct mon_rng *r, struct mnode **out) {
+    struct aws_json_value *v;
+    struct mnode *m;
+    switch (mon_below(r, 8)) {
+        case 0:
+            m = mn_new(K_NULL);
+            v = aws_json_value_new_null(s_alloc);
+            break;
+        case 1:
+            m = mn_new(mon_chance(r, 1, 2) ? K_TRUE : K_FALSE);
+            v = aws_json_value_new_boolean(s_alloc, m->kind == K_TRUE);
+            break;
+        case 2:
+        case 3:
+        case 4:
+            m = mn_num(gen_number(r));
+            v = aws_json_value_new_number(s_alloc, m->num);
+            break;
+        default: {
+            struct sbuf s = {0};
+            sb_put(&s, "", 0);
+            gen_bytes(r, &s, gen_strlen(r));
+            m = mn_str(s.p, s.n);
+            if (mon_chance(r, 1, 2)) {
+                uint8_t *st;
+                struct aws_byte_cursor c = unterminated(m->str, m->slen, &st);
+                v = aws_json_value_new_string(s_alloc, c);
+                free(st);
+            } else {
+                v = aws_json_value_new_string_from_c_str(s_alloc, (const char *)m->str);
+            }
+            sb_free(&s);
+            break;
+        }
+    }
+    if (!v) {
+        mon_violation("C11:create-failed", "aws_json_value_new_%s returned NULL", s_kind_names[m->kind]);
+    }
+    m->lib = v;
+    *out = m;
+    return v;
+}
+
+static int add_member(struct mon_rng *r, struct aws_json_value *obj, const uint8_t *key, size_t klen, struct aws_json_value *val) {
+    if (mon_chance(r, 1, 2)) {
+        uint8_t *st;
+        struct aws_byte_cursor c = unterminated(key, klen, &st);
+        int rc = aws_json_value_add_to_object(obj, c, val);
+        free(st);
+        return rc;
+    }
+    return aws_json_value_add_to_object_c_str(obj, (const char *)key, val);
+}
+
+static struct aws_json_value *get_member(struct mon_rng *r, struct aws_json_value *obj, const uint8_t *key, size_t klen, bool *has) {
+    struct aws_json_value *g;
+    if (mon_chance(r, 1, 2)) {
+        uint8_t *st;
+        struct aws_byte_cursor c = unterminated(key, klen, &st);
+        g = aws_json_value_get_from_object(obj, c);
+        *has = aws_json_value_has_key(obj, c);
+        free(st);
+    } else {
+        g = aws_json_value_get_from_object_c_str(obj, (const char *)key);
+        *has = aws_json_value_has_key_c_str(obj, (const char *)key);
+    }
+    return g;
+}
+
+static int remove_member(struct mon_rng *r, struct aws_json_value *obj, const uint8_t *key, size_t klen) {
+    if (mon_chance(r, 1, 2)) {
+        uint8_t *st;
+        struct aws_byte_cursor c = unterminated(key, klen, &st);
+        int rc = aws_json_value_remove_from_object(obj, c);
+        free(st);
+        return rc;
+    }
+    return aws_json_value_remove_from_object_c_str(obj, (const char *)key);
+}
+
+/* one operation on an object against the reference (ordered association list, case-insensitive keys) */
+static void object_op(struct mon_rng *r, struct aws_json_value *lib, struct mnode *m, struct budget *bg, int depth, bool prefer_add) {
+    unsigned pick = (unsigned)mon_below(r, 100);
+    if (prefer_add && pick >= 55) {
+        pick = (unsigned)mon_below(r, 55);
+    }
+    struct sbuf k = {0};
+    sb_put(&k, "", 0);
+    char what[64];
+    if (pick < 55 || m->n == 0) {
+        /* add: fresh key, exact duplicate or case variant of an existing key */
+        bool variant = false;
+        if (m->n && mon_chance(r, 1, 5)) {
+            size_t i = (size_t)mon_below(r, m->n);
+            if (mon_chance(r, 1, 2)) {
+                sb_put(&k, m->key[i], m->klen[i]);
+            } else {
+                variant = case_variant(r, m->key[i], m->klen[i], &k);
+            }
+        } else {
+            gen_key(r, &k);
+        }
+        long at = mn_find(m, (uint8_t *)k.p, k.n);
+        bool exact = at >= 0 && key_eq(m->key[at], m->klen[at], (uint8_t *)k.p, k.n);
+        mon_fp(1 + (at >= 0) + exact);
+        struct mnode *cm = NULL;
+        struct aws_json_value *cv = build_api(r, &cm, bg, depth + 1);
+        int rc = add_member(r, lib, (uint8_t *)k.p, k.n, cv);
+        mon_sample(" add(%s)%s", mon_hex(k.p, k.n, 8), rc ? "=refused" : "");
+        if (at < 0) {
+            if (rc != AWS_OP_SUCCESS) {
+                mon_violation("C11:object:add-refused", "add_to_object with new key %s refused (object has %zu members)", mon_hex(k.p, k.n, 60),
+                              m->n);
+                aws_json_value_destroy(cv);
+                mn_free(cm);
+            } else {
+                mn_add(m, k.p, k.n, cm);
+            }
+            snprintf(what, sizeof(what), "add of a new key");
+        } else {
+            mon_flag(exact ? F_DUP_KEY_REFUSED : F_CASE_VARIANT_KEY_REFUSED);
+            if (rc == AWS_OP_SUCCESS) {
+                mon_violation(exact ? "C11:object:duplicate-key-accepted" : "C11:object:case-variant:add-accepted",
+                              "add_to_object accepted key %s although member %ld has key %s", mon_hex(k.p, k.n, 60), at,
+                              mon_hex(m->key[at], m->klen[at], 60));
+                mn_add(m, k.p, k.n, cm); /* keep the reference in step */
+            } else if (mon_chance(r, 1, 2)) {
+                /* the refused value still belongs to the caller */
+                aws_json_value_destroy(cv);
+                mn_free(cm);
+            } else {
+                /* ... and can be added under another key */
+                char sfx[24];
+                snprintf(sfx, sizeof(sfx), "~%zu~%u", m->n, (unsigned)mon_below(r, 1000));
+                sb_s(&k, sfx);
+                if (mn_find(m, (uint8_t *)k.p, k.n) < 0) {
+                    rc = aws_json_value_add_to_object_c_str(lib, k.p, cv);
+                    if (rc != AWS_OP_SUCCESS) {
+                        mon_violation("C11:object:add-refused", "re-adding a refused value under new key %s failed", mon_hex(k.p, k.n, 60));
+                        aws_json_value_destroy(cv);
+                        mn_free(cm);
+                    } else {
+                        mn_add(m, k.p, k.n, cm);
+                    }
+                } else {
+                    aws_json_value_destroy(cv);
+                    mn_free(cm);
+                }
+            }
+            snprintf(what, sizeof(what), "refused add of an existing key");
+        }
+        (void)variant;
+    } else if (pick < 75) {
+        /* lookup: existing key (exact / case variant) or absent key */
+        bool has = false;
+        struct aws_json_value *g;
+        unsigned kind = (unsigned)mon_below(r, 3);
+        size_t i = (size_t)mon_below(r, m->n);
+        if (kind == 0) {
+            sb_put(&k, m->key[i], m->klen[i]);
+        } else if (kind == 1) {
+            case_variant(r, m->key[i], m->klen[i], &k);
+        } else {
+            gen_key(r, &k);
+        }
+        long at = mn_find(m, (uint8_t *)k.p, k.n);
+        bool exact = at >= 0 && key_eq(m->key[at], m->klen[at], (uint8_t *)k.p, k.n);
+        mon_fp(10 + (at >= 0) + exact);
+        g = get_member(r, lib, (uint8_t *)k.p, k.n, &has);
+        if (at < 0) {
+            mon_flag(F_ABSENT_KEY);
+            if (g || has) {
+                mon_violation("C11:object:absent-key-found", "key %s is not in the object but get=%s has_key=%d", mon_hex(k.p, k.n, 60),
+                              g ? "non-NULL" : "NULL", has);
+            }
+        } else {
+            if (!exact) {
+                mon_flag(F_CASE_VARIANT_LOOKUP);
+            }
+            if (g != m->kid[at]->lib || !has) {
+                mon_violation(exact ? "C11:object:get" : "C11:object:case-variant:get",
+                              "key %s (member %ld has %s): get_from_object %s, has_key=%d", mon_hex(k.p, k.n, 60), at,
+                              mon_hex(m->key[at], m->klen[at], 60), g == NULL ? "returned NULL" : (g == m->kid[at]->lib ? "ok" : "returned another member"),
+                              has);
+            }
+        }
+        snprintf(what, sizeof(what), "lookup");
+    } else {
+        /* remove: existing (exact / variant) or absent */
+        unsigned kind = (unsigned)mon_below(r, 4);
+        size_t i = (size_t)mon_below(r, m->n);
+        if (kind <= 1) {
+            sb_put(&k, m->key[i], m->klen[i]);
+        } else if (kind == 2) {
+            case_variant(r, m->key[i], m->klen[i], &k);
+        } else {
+            gen_key(r, &k);
+        }
+        long at = mn_find(m, (uint8_t *)k.p, k.n);
+        bool exact = at >= 0 && key_eq(m->key[at], m->klen[at], (uint8_t *)k.p, k.n);
+        mon_fp(20 + (at >= 0) + exact);
+        int rc = remove_member(r, lib, (uint8_t *)k.p, k.n);
+        mon_sample(" remove(%s)%s", mon_hex(k.p, k.n, 8), rc ? "=ERR" : "");
+        if (at < 0) {
+            mon_flag(F_ABSENT_KEY);
+            if (rc == AWS_OP_SUCCESS) {
+                mon_violation("C11:object:remove-absent", "remove_from_object of absent key %s reported success", mon_hex(k.p, k.n, 60));
+            }
+        } else {
+            if (rc != AWS_OP_SUCCESS) {
+                mon_violation(exact ? "C11:object:remove" : "C11:object:case-variant:remove", "remove_from_object(%s) failed although member %ld has key %s",
+                              mon_hex(k.p, k.n, 60), at, mon_hex(m->key[at], m->klen[at], 60));
+            } else {
+                mon_flag(F_OBJECT_REMOVE);
+                mn_remove_at(m, (size_t)at);
+                bool has = false;
+                struct aws_json_value *g = get_member(r, lib, (uint8_t *)k.p, k.n, &has);
+                long again = mn_find(m, (uint8_t *)k.p, k.n);
+                if ((again < 0) != (g == NULL) || (again < 0) == has) {
+                    mon_violation("C11:object:remove", "after removing key %s: get=%s has_key=%d, reference %s another member with that key",
+                                  mon_hex(k.p, k.n, 60), g ? "non-NULL" : "NULL", has, again < 0 ? "has no" : "has");
+                }
+            }
+        }
+        snprintf(what, sizeof(what), "remove");
+    }
+    sb_free(&k);
+    verify_container(lib, m, what);
+}
+
+static void array_op(struct mon_rng *r, struct aws_json_value *lib, struct mnode *m, struct budget *bg, int depth, bool prefer_add) {
+    unsigned pick = (unsigned)mon_below(r, 100);
+    if (prefer_add && pick >= 60) {
+        pick = (unsigned)mon_below(r, 60);
+    }
+    const char *what;
+    if (pick < 60 || m->n == 0) {
+        struct mnode *cm = NULL;
+        struct aws_json_value *cv = build_api(r, &cm, bg, depth + 1);
+        mon_fp(30);
+        int rc = aws_json_value_add_array_element(lib, cv);
+        if (rc != AWS_OP_SUCCESS) {
+            mon_violation("C11:array:add", "add_array_element failed on an array of %zu", m->n);
+            aws_json_value_destroy(cv);
+            mn_free(cm);
+        } else {
+            mn_add(m, NULL, 0, cm);
+        }
+        what = "add_array_element";
+    } else if (pick < 75) {
+        size_t i = (size_t)mon_below(r, m->n);
+        mon_fp(31);
+        struct aws_json_value *g = aws_json_get_array_element(lib, i);
+        if (g != m->kid[i]->lib) {
+            mon_violation("C11:array:get-index", "get_array_element(%zu) of %zu %s", i, m->n, g ? "returned another element" : "returned NULL");
+        }
+        what = "get_array_element";
+    } else if (pick < 92) {
+        size_t i;
+        unsigned w = (unsigned)mon_below(r, 4);
+        i = w == 0 ? 0 : (w == 1 ? m->n - 1 : (size_t)mon_below(r, m->n));
+        mon_fp(32);
+        int rc = aws_json_value_remove_array_element(lib, i);
+        mon_sample(" remove[%zu/%zu]", i, m->n);
+        if (rc != AWS_OP_SUCCESS) {
+            mon_violation("C11:array:remove", "remove_array_element(%zu) of %zu failed", i, m->n);
+        } else {
+            mon_flag(i == 0 ? F_ARRAY_REMOVE_FIRST : (i == m->n - 1 ? F_ARRAY_REMOVE_LAST : F_ARRAY_REMOVE_MIDDLE));
+            mn_remove_at(m, i);
+        }
+        what = "remove_array_element";
+    } else if (pick < 96) {
+        /* index == size: accepted as a no-op by the code; the property is silent, so only memory safety and
+         * "nothing else changed" are checked (DESIGN.md, C11 workload) */
+        mon_fp(33);
+        mon_flag(F_INDEX_EQ_SIZE);
+        (void)aws_json_get_array_element(lib, m->n);
+        (void)aws_json_value_remove_array_element(lib, m->n);
+        what = "get/remove at index == size";
+    } else {
+        size_t i = m->n + 1 + (size_t)mon_below(r, 5);
+        if (mon_chance(r, 1, 4)) {
+            i = mon_chance(r, 1, 2) ? (size_t)INT_MAX + 1 + m->n : SIZE_MAX - (size_t)mon_below(r, 3);
+        }
+        mon_fp(34);
+        mon_flag(F_INDEX_BEYOND_SIZE);
+        struct aws_json_value *g = aws_json_get_array_element(lib, i);
+        int rc = aws_json_value_remove_array_element(lib, i);
+        if (g || rc == AWS_OP_SUCCESS) {
+            mon_violation("C11:array:index-out-of-range", "index %zu on an array of %zu: get=%s remove rc=%d", i, m->n, g ? "non-NULL" : "NULL", rc);
+        }
+        what = "get/remove beyond the end";
+    }
+    verify_container(lib, m, what);
+}
+
+static void container_ops(struct mon_rng *r, struct aws_json_value *lib, struct mnode *m, struct budget *bg, int depth, size_t nops,
+                          bool building) {
+    for (size_t op = 0; op < nops && mon_violations() < 5; ++op) {
+        bool prefer_add = building && op * 3 < nops * 2;
+        if (m->kind == K_OBJ) {
+            object_op(r, lib, m, bg, depth, prefer_add);
+        } else {
+            array_op(r, lib, m, bg, depth, prefer_add);
+        }
+    }
+    if (mon_chance(r, 1, 8)) {
+        check_iterate_control(lib, m, r);
+    }
+}
+
+static struct aws_json_value *build_api(struct mon_rng *r, struct mnode **out, struct budget *bg, int depth) {
+    --bg->nodes;
+    if (depth >= bg->maxdepth || bg->nodes <= 0 || mon_chance(r, 2, 5)) {
+        return build_scalar(r, out);
+    }
+    bool obj = mon_chance(r, 1, 2);
+    struct mnode *m = mn_new(obj ? K_OBJ : K_ARR);
+    struct aws_json_value *v = obj ? aws_json_value_new_object(s_alloc) : aws_json_value_new_array(s_alloc);
+    if (!v) {
+        mon_violation("C11:create-failed", "aws_json_value_new_%s returned NULL", s_kind_names[m->kind]);
+    }
+    m->lib = v;
+    size_t nops;
+    switch (mon_below(r, 8)) {
+        case 0:
+            nops = 0;
+            break;
+        case 1:
+            nops = depth == 0 ? (size_t)mon_range(r, 10, 40) : 6;
+            break;
+        default:
+            nops = (size_t)mon_range(r, 1, 8);
+            break;
+    }
+    mon_sample(" %s", obj ? "{" : "[");
+    container_ops(r, v, m, bg, depth, nops, true);
+    mon_sample(" %s", obj ? "}" : "]");
+    *out = m;
+    return v;
+}
+
+/* ------------------------------------------------------------------ model generator for the text path */
+static struct mnode *gen_text_model(struct mon_rng *r, struct budget *bg, int depth) {
+    --bg->nodes;
+    if (depth >= bg->maxdepth || bg->nodes <= 0 || mon_chance(r, 2, 5)) {
+        switch (mon_below(r, 8)) {
+            case 0:
+                return mn_new(K_NULL);
+            case 1:
+                return mn_new(mon_chance(r, 1, 2) ? K_TRUE : K_FALSE);
+            case 2:
+            case 3:
+            case 4: {
+                char lit[64];
+                double v;
+                gen_literal(r, lit, &v);
+                struct mnode *m = mn_num(v);
+                m->lit = (char *)dup_bytes(lit, strlen(lit));
+                return m;
+            }
+            default: {
+                struct sbuf s = {0};
+                sb_put(&s, "", 0);
+                gen_bytes(r, &s, gen_strlen(r));
+                struct mnode *m = mn_str(s.p, s.n);
+                sb_free(&s);
+                return m;
+            }
+        }
+    }
+    bool obj = mon_chance(r, 1, 2);
+    struct mnode *m = mn_new(obj ? K_OBJ : K_ARR);
+    size_t n;
+    switch (mon_below(r, 8)) {
+        case 0:
+            n = 0;
+            break;
+        case 1:
+            n = depth == 0 ? (size_t)mon_range(r, 10, 40) : 5;
+            break;
+        default:
+            n = (size_t)mon_range(r, 1, 6);
+            break;
+    }
+    for (size_t i = 0; i < n; ++i) {
+        struct sbuf k = {0};
+        sb_put(&k, "", 0);
+        if (obj) {
+            /* text may repeat a key (exactly or in another letter case); the API cannot create that */
+            if (m->n && mon_chance(r, 1, 10)) {
+                size_t j = (size_t)mon_below(r, m->n);
+                if (mon_chance(r, 1, 2)) {
+                    sb_put(&k, m->key[j], m->klen[j]);
+                } else {
+                    case_variant(r, m->key[j], m->klen[j], &k);
+                }
+            } else {
+                gen_key(r, &k);
+            }
+        }
+        mn_add(m, k.p, k.n, gen_text_model(r, bg, depth + 1));
+        sb_free(&k);
+    }
+    return m;
+}
+
+/* ------------------------------------------------------------------ serialise / re-read / duplicate */
+static bool serialise(struct aws_json_value *v, bool formatted, struct sbuf *out, struct mon_rng *r) {
+    /* pre-existing contents must survive: the function appends */
+    static const char prefix[] = "PFX\x01[\"";
+    size_t plen = (size_t)mon_below(r, sizeof(prefix));
+    struct aws_byte_buf buf;
+    aws_byte_buf_init(&buf, s_alloc, (size_t)mon_below(r, 80) + plen);
+    if (plen) {
+        struct aws_byte_cursor pc = aws_byte_cursor_from_array(prefix, plen);
+        aws_byte_buf_append(&buf, &pc);
+    }
+    int rc = formatted ? aws_byte_buf_append_json_string_formatted(v, &buf) : aws_byte_buf_append_json_string(v, &buf);
+    bool ok = true;
+    if (rc != AWS_OP_SUCCESS) {
+        mon_violation(formatted ? "C11:serialise:formatted:failed" : "C11:serialise:compact:failed", "append_json_string%s returned %d (error %d)",
+                      formatted ? "_formatted" : "", rc, aws_last_error());
+        ok = false;
+    } else if (buf.len < plen || memcmp(buf.buffer, prefix, plen)) {
+        mon_violation("C11:serialise:prefix-damaged", "the %zu bytes already in the buffer were not preserved (len now %zu)", plen, buf.len);
+        ok = false;
+    } else {
+        sb_put(out, "", 0);
+        sb_put(out, buf.buffer + plen, buf.len - plen);
+        if (memchr(out->p, 0, out->n)) {
+            mon_violation("C11:serialise:embedded-nul", "output of %zu bytes contains a NUL byte", out->n);
+            ok = false;
+        }
+        if (out->n > 256) {
+            mon_flag(F_PRINT_BUFFER_GREW);
+        }
+    }
+    aws_byte_buf_clean_up_secure(&buf);
+    return ok;
+}
+
+static struct aws_json_value *parse_text(const char *text, size_t n) {
+    /* the cursor is followed by bytes that would change the document if the length were not honoured */
+    uint8_t *st;
+    struct aws_byte_cursor c = unterminated((const uint8_t *)text, n, &st);
+    struct aws_json_value *v = aws_json_value_new_from_string(s_alloc, c);
+    free(st);
+    return v;
+}
+
+static void py_record(const char *origin, const struct mnode *m, const struct sbuf *c, const struct sbuf *f) {
+    long every = mon_run.param[0] > 0 ? mon_run.param[0] : 4;
+    if (!s_py || (s_case % (uint64_t)every) != 0 || c->n + f->n > 60000 || mn_depth(m) > 100) {
+        return;
+    }
+    struct sbuf mt = {0};
+    wr_value(&mt, m, NULL, NULL);
+    fprintf(s_py, "{\"case\":%llu,\"origin\":\"%s\",\"m\":\"", (unsigned long long)s_case, origin);
+    for (size_t i = 0; i < mt.n; ++i) {
+        fprintf(s_py, "%02x", (uint8_t)mt.p[i]);
+    }
+    fputs("\",\"c\":\"", s_py);
+    for (size_t i = 0; i < c->n; ++i) {
+        fprintf(s_py, "%02x", (uint8_t)c->p[i]);
+    }
+    fputs("\",\"f\":\"", s_py);
+    for (size_t i = 0; i < f->n; ++i) {
+        fprintf(s_py, "%02x", (uint8_t)f->p[i]);
+    }
+    fputs("\"}\n", s_py);
+    sb_free(&mt);
+    mon_count("python_records_written", 1);
+}
+
+static void note_reader_stats(const struct rd *st) {
+    if (st->lit_int) {
+        mon_flag(F_NUM_INT_FORMAT);
+    }
+    if (st->lit_le15) {
+        mon_flag(F_NUM_15_DIGITS);
+    }
+    if (st->lit_17) {
+        mon_flag(F_NUM_17_DIGITS);
+    }
+    if (st->lit_expo) {
+        mon_flag(F_NUM_EXPONENT_FORM);
+    }
+    if (st->short_esc) {
+        mon_flag(F_OUT_SHORT_ESCAPE);
+    }
+    if (st->u_esc) {
+        mon_flag(F_OUT_U_ESCAPE);
+    }
+    if (st->high_raw) {
+        mon_flag(F_OUT_RAW_HIGH_BYTES);
+    }
+    mon_count("out_numbers_integer_format", st->lit_int);
+    mon_count("out_numbers_le15_digits", st->lit_le15);
+    mon_count("out_numbers_16_17_digits", st->lit_17);
+}
+
+/* L is the library tree, M the generating tree (its numbers are what L must hold exactly) */
+static bool roundtrip(struct aws_json_value *L, const struct mnode *M, const char *origin, struct mon_rng *r) {
+    bool ok = true;
+    struct sbuf out[2] = {{0}, {0}};
+    struct mnode *reread[2] = {NULL, NULL};
+    static const char *fmt_name[2] = {"compact", "formatted"};
+    char stage[48], key[96];
+    for (int f = 0; f < 2 && ok; ++f) {
+        if (!serialise(L, f == 1, &out[f], r)) {
+            ok = false;
+            break;
+        }
+        /* (1) independent strict reader: output is valid JSON and denotes the generating tree */
+        struct rd st;
+        struct mnode *rm = strict_read(out[f].p, out[f].n, &st);
+        if (!rm) {
+            snprintf(key, sizeof(key), "C11:output-not-valid-json:%s", fmt_name[f]);
+            size_t from = st.i > 24 ? st.i - 24 : 0;
+            mon_violation(key, "strict RFC 8259 reader: %s at offset %zu of %zu; text around it (hex): %s", st.err ? st.err : "?", st.i,
+                          out[f].n, mon_hex(out[f].p + from, out[f].n - from, 60));
+            ok = false;
+            break;
+        }
+        if (f == 0) {
+            note_reader_stats(&st);
+        }
+        snprintf(stage, sizeof(stage), "reader-%s", fmt_name[f]);
+        ok = model_cmp(M, rm, CMP_TOL, stage) && ok;
+        /* (2) the library's own parser on its own output */
+        struct aws_json_value *L2 = parse_text(out[f].p, out[f].n);
+        if (!L2) {
+            snprintf(key, sizeof(key), "C11:reparse-rejected:%s", fmt_name[f]);
+            mon_violation(key, "the library does not parse its own %s output (%zu bytes): %s", fmt_name[f], out[f].n,
+                          mon_hex(out[f].p, out[f].n, 100));
+            ok = false;
+        } else {
+            reread[f] = extract(L2);
+            snprintf(stage, sizeof(stage), "reread-%s", fmt_name[f]);
+            ok = model_cmp(M, reread[f], CMP_TOL, stage) && ok;
+            /* both parsers read the same text: identical, not merely close */
+            snprintf(stage, sizeof(stage), "library-vs-reader-%s", fmt_name[f]);
+            ok = model_cmp(rm, reread[f], CMP_EXACT, stage) && ok;
+            aws_json_value_destroy(L2);
+        }
+        mn_free(rm);
+    }
+    if (ok && reread[0] && reread[1]) {
+        ok = model_cmp(reread[0], reread[1], CMP_EXACT, "compact-vs-formatted") && ok;
+    }
+    if (ok) {
+        py_record(origin, M, &out[0], &out[1]);
+    }
+    mn_free(reread[0]);
+    mn_free(reread[1]);
+    sb_free(&out[0]);
+    sb_free(&out[1]);
+
+    /* duplicate: identical when read back, and compares equal to its original */
+    struct aws_json_value *D = aws_json_value_duplicate(L);
+    if (!D) {
+        mon_violation("C11:duplicate:failed", "aws_json_value_duplicate returned NULL (error %d)", aws_last_error());
+        return false;
+    }
+    struct mnode *dm = extract(D);
+    ok = model_cmp(M, dm, CMP_EXACT, "duplicate") && ok;
+    mn_free(dm);
+    if (mn_objdepth(M) <= OBJDEPTH_COMPARE_LIMIT) {
+        mon_flag(F_COMPARE_DUPLICATE);
+        for (int cs = 0; cs < 2; ++cs) {
+            bool eq = aws_json_value_compare(D, L, cs == 1) && aws_json_value_compare(L, D, cs == 1);
+            if (!eq) {
+                /* a text-parsed object may hold two members with the same key: its own failure class */
+                bool dups = mn_has_dupkeys(M, cs == 0);
+                struct sbuf mt = {0};
+                wr_value(&mt, M, NULL, NULL);
+                mon_violation(dups ? "C11:compare-duplicate:duplicate-keys" : "C11:compare-duplicate",
+                              "aws_json_value_compare(duplicate, original, is_case_sensitive=%d) is false%s; tree: %.700s", cs,
+                              dups ? " (the tree holds an object with two members whose keys are equal under that comparison)" : "",
+                              mt.p);
+                sb_free(&mt);
+                ok = false;
+            }
+        }
+    } else {
+        mon_count("compare_skipped_object_depth_gt_10", 1);
+    }
+    aws_json_value_destroy(D);
+    return ok;
+}
+
+/* ------------------------------------------------------------------ cases */
+static void check_balance(const struct mon_alloc_stats *st0, const char *when) {
+    struct mon_alloc_stats st1;
+    mon_guard_stats(&st1);
+    if (st1.live_blocks != st0->live_blocks) {
+        mon_violation("C11:leak", "%s: %lld blocks (%lld bytes) of the JSON module allocator still live", when,
+                      (long long)(st1.live_blocks - st0->live_blocks), (long long)(st1.live_bytes - st0->live_bytes));
+    }
+}
+
+static bool mn_any_invalid_utf8(const struct mnode *m) {
+    if (m->kind == K_STR && !utf8_valid(m->str, m->slen)) {
+        return true;
+    }
+    for (size_t i = 0; i < m->n; ++i) {
+        if ((m->kind == K_OBJ && !utf8_valid(m->key[i], m->klen[i])) || mn_any_invalid_utf8(m->kid[i])) {
+            return true;
+        }
+    }
+    return false;
+}
+
+static void finish_tree(struct aws_json_value *L, struct mnode *M, const char *origin, struct mon_rng *r, const struct mon_alloc_stats *st0) {
+    mn_fp(M);
+    if (mn_any_invalid_utf8(M)) {
+        mon_flag(F_INVALID_UTF8_BYTES);
+    }
+    mon_count("nodes", mn_count(M));
+    mon_count_max("max_depth", mn_depth(M));
+    bool ok = roundtrip(L, M, origin, r);
+    aws_json_value_destroy(L);
+    check_balance(st0, "after destroying the tree, its duplicate and both re-parsed trees");
+    (void)ok;
+}
+
+/* tree built through the API */
+static void case_api(struct mon_rng *r, struct budget bg) {
+    struct mon_alloc_stats st0, st1;
+    mon_guard_stats(&st0);
+    struct mnode *M = NULL;
+    mon_sample("api:");
+    struct aws_json_value *L = build_api(r, &M, &bg, 0);
+    if (!L) {
+        mn_free(M);
+        return;
+    }
+    mon_flag(F_API_BUILT);
+    mon_guard_stats(&st1);
+    size_t nodes = mn_count(M);
+    /* every node of the tree must have come from the module allocator handed to aws_common_library_init */
+    if (st1.live_blocks - st0.live_blocks < nodes) {
+        mon_violation("C11:allocator-not-used", "tree of %zu nodes but only %llu live blocks in the module allocator", nodes,
+                      (unsigned long long)(st1.live_blocks - st0.live_blocks));
+    }
+    struct mnode *E = extract(L);
+    model_cmp(M, E, CMP_EXACT, "built");
+    mn_free(E);
+    finish_tree(L, M, "api", r, &st0);
+    mn_free(M);
+}
+
+/* collects the container nodes of a model tree */
+static void containers_of(struct mnode *m, struct mnode ***list, size_t *n, size_t *cap) {
+    if (m->kind != K_ARR && m->kind != K_OBJ) {
+        return;
+    }
+    if (*n == *cap) {
+        *cap = *cap ? *cap * 2 : 16;
+        *list = realloc(*list, *cap * sizeof(**list));
+    }
+    (*list)[(*n)++] = m;
+    for (size_t i = 0; i < m->n; ++i) {
+        containers_of(m->kid[i], list, n, cap);
+    }
+}
+
+/* tree parsed from text written by the harness */
+static void case_text(struct mon_rng *r, struct mnode *M /* consumed */, bool with_ops) {
+    struct mon_alloc_stats st0;
+    mon_guard_stats(&st0);
+    struct sbuf text = {0};
+    struct wstats ws;
+    memset(&ws, 0, sizeof(ws));
+    wr_ws(&text, r, &ws);
+    wr_value(&text, M, r, &ws);
+    wr_ws(&text, r, &ws);
+    mon_sample("text(%zu bytes): %.300s", text.n, text.n < 4000 ? mon_hex(text.p, text.n, 150) : "...");
+    struct aws_json_value *L = parse_text(text.p, text.n);
+    if (!L) {
+        mon_violation("C11:parse:own-text-rejected", "valid JSON text from the harness writer rejected (%zu bytes): %s", text.n,
+                      mon_hex(text.p, text.n, 200));
+        sb_free(&text);
+        mn_free(M);
+        check_balance(&st0, "after a rejected parse");
+        return;
+    }
+    mon_flag(F_TEXT_PARSED);
+    if (ws.u_esc) {
+        mon_flag(F_IN_U_ESCAPE);
+    }
+    if (ws.surrogate) {
+        mon_flag(F_IN_SURROGATE_PAIR);
+    }
+    if (ws.solidus) {
+        mon_flag(F_IN_SOLIDUS_ESCAPE);
+    }
+    if (ws.expo) {
+        mon_flag(F_IN_EXPONENT_LITERAL);
+    }
+    if (ws.ws) {
+        mon_flag(F_IN_WHITESPACE);
+    }
+    if (mn_has_dupkeys(M, true)) {
+        mon_flag(F_TEXT_DUPLICATE_KEYS);
+    }
+    /* second opinion on the harness writer: the strict reader must read the text as M as well */
+    struct rd st;
+    struct mnode *own = strict_read(text.p, text.n, &st);
+    if (!own || !model_cmp(M, own, CMP_EXACT, "harness-writer-self-check")) {
+        mon_violation("C11:harness:writer-self-check", "harness writer/reader disagree (%s at %zu): %s", st.err ? st.err : "tree differs", st.i,
+                      mon_hex(text.p, text.n, 200));
+    }
+    mn_free(own);
+    sb_free(&text);
+    struct mnode *E = extract(L);
+    bool same = model_cmp(M, E, CMP_EXACT, "parsed");
+    mn_free(M);
+    if (same && with_ops) {
+        /* add/get/remove on a container of the parsed tree (first matching member wins for repeated keys) */
+        struct mnode **list = NULL;
+        size_t n = 0, cap = 0;
+        containers_of(E, &list, &n, &cap);
+        if (n) {
+            struct mnode *c = list[mon_below(r, n)];
+            struct budget bg = {6, MAX_DEPTH};
+            mon_sample(" ops:");
+            container_ops(r, c->lib, c, &bg, MAX_DEPTH - 2, 1 + (size_t)mon_below(r, 4), false);
+        }
+        free(list);
+    }
+    finish_tree(L, E, "text", r, &st0);
+    mn_free(E);
+}
+
+/* chains of up to 998 nested containers */
+static void case_chain(struct mon_rng *r) {
+    static const size_t depths[] = {998, 998, 997, 512, 500, 300, 129, 64};
+    size_t depth = depths[mon_below(r, sizeof(depths) / sizeof(depths[0]))];
+    if (mon_chance(r, 1, 3)) {
+        depth = (size_t)mon_range(r, 100, 998);
+    }
+    unsigned shape = (unsigned)mon_below(r, 4); /* 0 arrays, 1 objects, 2 alternating, 3 random */
+    bool api = mon_chance(r, 1, 2);
+    mon_fp(0xC4A1 + depth * 8 + shape * 2 + api);
+    mon_sample("chain depth=%zu shape=%u %s", depth, shape, api ? "api" : "text");
+    struct mon_alloc_stats st0;
+    mon_guard_stats(&st0);
+    struct mnode *M = NULL;
+    struct aws_json_value *L = NULL;
+    struct budget leafbg = {1, 0};
+    if (api) {
+        L = build_api(r, &M, &leafbg, 0);
+    } else {
+        M = gen_text_model(r, &leafbg, 0);
+    }
+    for (size_t lvl = 0; lvl < depth; ++lvl) {
+        bool obj = shape == 1 || (shape == 2 && (lvl & 1)) || (shape == 3 && mon_chance(r, 1, 2));
+        struct mnode *p = mn_new(obj ? K_OBJ : K_ARR);
+        struct sbuf k = {0};
+        sb_put(&k, "", 0);
+        if (obj) {
+            gen_key(r, &k);
+        }
+        mn_add(p, k.p, k.n, M);
+        if (api) {
+            struct aws_json_value *pv = obj ? aws_json_value_new_object(s_alloc) : aws_json_value_new_array(s_alloc);
+            int rc = obj ? add_member(r, pv, (uint8_t *)k.p, k.n, L) : aws_json_value_add_array_element(pv, L);
+            if (rc != AWS_OP_SUCCESS) {
+                mon_violation(obj ? "C11:object:add-refused" : "C11:array:add", "wrapping level %zu of a chain failed", lvl);
+            }
+            p->lib = pv;
+            L = pv;
+        }
+        sb_free(&k);
+        M = p;
+    }
+    if (depth >= 500) {
+        mon_flag(F_DEEP_CHAIN);
+    }
+    mon_count("chains", 1);
+    if (api) {
+        mon_flag(F_API_BUILT);
+        struct mnode *E = extract(L);
+        model_cmp(M, E, CMP_EXACT, "built");
+        mn_free(E);
+        finish_tree(L, M, "chain-api", r, &st0);
+        mn_free(M);
+    } else {
+        case_text(r, M, false);
+    }
+}
+
+/* deterministic sweeps (independent of the seed): case indices 0..9 */
+static void sweep_numbers(struct mon_rng *r, int which, bool text) {
+    struct mnode *M = mn_new(K_ARR);
+    bool neg = which & 1;
+    mon_fp(0x5EE9 + (uint64_t)which * 2 + text);
+    if (which < 2) {
+        /* all integers 2^k-1, 2^k, 2^k+1 up to 2^63 (those that are doubles; the others round) */
+        for (int k = 0; k < 64; ++k) {
+            for (int o = -1; o <= 1; ++o) {
+                uint64_t v = ((uint64_t)1 << k) + (uint64_t)o;
+                double d = (double)v;
+                mn_add(M, NULL, 0, mn_num(neg ? -d : d));
+                char lit[32];
+                snprintf(lit, sizeof(lit), "%s%llu", neg ? "-" : "", (unsigned long long)v);
+                M->kid[M->n - 1]->lit = (char *)dup_bytes(lit, strlen(lit));
+                M->kid[M->n - 1]->num = strtod(lit, NULL);
+            }
+        }
+    } else {
+        static const double sp[] = {0.0, -0.0, DBL_MAX, DBL_MIN, 4.9406564584124654e-324, 9.8813129168249309e-324, 2.2250738585072009e-308,
+                                    1.7976931348623155e308, 2147483646.0, 2147483647.0, 2147483648.0, 2147483649.0, 2147483647.5,
+                                    2147483646.5, 2147483647.000001, 2147483648.5, 9007199254740991.0, 9007199254740992.0,
+                                    9007199254740994.0, 0.1, 0.2, 0.30000000000000004, 1.0 / 3.0, 2.0 / 3.0, 1e15, 1e16, 1e17, 1e21, 1e22,
+                                    1e23, 1e-5, 1e-6, 1e-7, 123456789012345.0, 1234567890123456.0, 12345678901234567.0, 999999999999999.0,
+                                    9999999999999998.0, 0.999999999999999, 0.9999999999999999, 1.0000000000000002, 1e308, 1e-308,
+                                    4294967296.0, 1e100, 1e-100, 5e-324, 1.5, 2.5e-5, 6.02214076e23, 1.602176634e-19};
+        for (size_t i = 0; i < sizeof(sp) / sizeof(sp[0]); ++i) {
+            mn_add(M, NULL, 0, mn_num(neg ? -sp[i] : sp[i]));
+        }
+        /* 2^k minus 1..3 ulp and plus 1 ulp: where 15 digits round across a power of two */
+        for (int k = -30; k <= 64; ++k) {
+            for (int o = -3; o <= 1; ++o) {
+                double d = from_bits(bits_of(pow2(k)) + (uint64_t)(int64_t)o);
+                mn_add(M, NULL, 0, mn_num(neg ? -d : d));
+            }
+        }
+    }
+    mon_flag(F_SWEEP);
+    mon_count("sweep_numbers", M->n);
+    if (text) {
+        /* integer sweep: exact decimal literals; special values: "%.17g" */
+        case_text(r, M, false);
+        return;
+    }
+    /* API path */
+    struct mon_alloc_stats st0;
+    mon_guard_stats(&st0);
+    struct aws_json_value *L = aws_json_value_new_array(s_alloc);
+    M->lib = L;
+    for (size_t i = 0; i < M->n; ++i) {
+        struct aws_json_value *v = aws_json_value_new_number(s_alloc, M->kid[i]->num);
+        M->kid[i]->lib = v;
+        if (aws_json_value_add_array_element(L, v) != AWS_OP_SUCCESS) {
+            mon_violation("C11:array:add", "add_array_element failed in the number sweep at %zu", i);
+        }
+    }
+    mon_flag(F_API_BUILT);
+    struct mnode *E = extract(L);
+    model_cmp(M, E, CMP_EXACT, "built");
+    mn_free(E);
+    finish_tree(L, M, "sweep-api", r, &st0);
+    mn_free(M);
+}
+
+/* every byte value 1..255 as a one-byte string, as a key, and embedded in a longer string */
+static void sweep_bytes(struct mon_rng *r, int which) {
+    mon_flag(F_SWEEP);
+    if (which == 0) {
+        struct mon_alloc_stats st0;
+        mon_guard_stats(&st0);
+        struct mnode *M = mn_new(K_OBJ);
+        struct aws_json_value *L = aws_json_value_new_object(s_alloc);
+        M->lib = L;
+        size_t refused = 0;
+        for (unsigned b = 1; b < 256; ++b) {
+            uint8_t key[2] = {(uint8_t)b, 0};
+            uint8_t val[4] = {'<', (uint8_t)b, '>', 0};
+            struct aws_json_value *v = aws_json_value_new_string_from_c_str(s_alloc, (const char *)val);
+            long at = mn_find(M, key, 1);
+            int rc = (b & 1) ? aws_json_value_add_to_object_c_str(L, (const char *)key, v)
+                             : aws_json_value_add_to_object(L, aws_byte_cursor_from_array(key, 1), v);
+            if (at >= 0) {
+                /* 'a'..'z' after 'A'..'Z': same key under the case-insensitive duplicate test */
+                ++refused;
+                mon_flag(F_CASE_VARIANT_KEY_REFUSED);
+                if (rc == AWS_OP_SUCCESS) {
+                    mon_violation("C11:object:case-variant:add-accepted", "key byte 0x%02x accepted although key 0x%02x is present", b,
+                                  M->key[at][0]);
+                    struct mnode *c = mn_str(val, 3);
+                    c->lib = v;
+                    mn_add(M, key, 1, c);
+                } else {
+                    aws_json_value_destroy(v);
+                }
+            } else if (rc != AWS_OP_SUCCESS) {
+                mon_violation("C11:object:add-refused", "one-byte key 0x%02x refused", b);
+                aws_json_value_destroy(v);
+            } else {
+                struct mnode *c = mn_str(val, 3);
+                c->lib = v;
+                mn_add(M, key, 1, c);
+            }
+        }
+        mon_count("sweep_key_bytes", 255);
+        verify_container(L, M, "byte sweep");
+        mon_flag(F_API_BUILT);
+        struct mnode *E = extract(L);
+        model_cmp(M, E, CMP_EXACT, "built");
+        mn_free(E);
+        finish_tree(L, M, "sweep-api", r, &st0);
+        mn_free(M);
+        (void)refused;
+    } else {
+        /* text: each byte in three random spellings as array element, plus as key (keys may repeat by case: allowed in text) */
+        struct mnode *M = mn_new(K_ARR);
+        struct mnode *O = mn_new(K_OBJ);
+        for (unsigned b = 1; b < 256; ++b) {
+            uint8_t one[1] = {(uint8_t)b};
+            for (int k = 0; k < 3; ++k) {
+                mn_add(M, NULL, 0, mn_str(one, 1));
+            }
+            mn_add(O, one, 1, mn_str(one, 1));
+        }
+        /* every BMP boundary and a few supplementary code points, written as escapes by the hostile writer at random */
+        static const uint32_t cps[] = {0x7F, 0x80, 0xFF, 0x100, 0x7FF, 0x800, 0xFFF, 0x1000, 0xD7FF, 0xE000, 0xFFFD, 0xFFFE, 0xFFFF,
+                                       0x10000, 0x10001, 0x1F600, 0xFFFFF, 0x100000, 0x10FFFF};
+        for (int rep = 0; rep < 6; ++rep) {
+            for (size_t i = 0; i < sizeof(cps) / sizeof(cps[0]); ++i) {
+                uint8_t tmp[4];
+                size_t l = utf8_encode(cps[i], tmp);
+                mn_add(M, NULL, 0, mn_str(tmp, l));
+            }
+        }
+        mn_add(M, NULL, 0, O);
+        mon_count("sweep_string_bytes", 255);
+        case_text(r, M, false);
+    }
+}
+
+static void run_case(uint64_t c) {
+    struct mon_rng *r = &mon_case_rng;
+    s_case = c;
+    if (c < 8) {
+        /* 0,1: integers 2^k+-1 as text; 2,3: special values through the API; 4,5: the same through text;
+         * 6,7: integers through the API (values as doubles) */
+        sweep_numbers(r, (int)(c < 4 ? c : (c < 6 ? c - 2 : c - 6)), c < 2 || c == 4 || c == 5);
+        return;
+    }
+    if (c < 10) {
+        sweep_bytes(r, (int)(c - 8));
+        return;
+    }
+    unsigned pick = (unsigned)mon_below(r, 128);
+    if (pick < 2) {
+        case_chain(r);
+        return;
+    }
+    struct budget bg;
+    bg.maxdepth = (int)mon_range(r, 1, MAX_DEPTH);
+    switch (mon_below(r, 16)) {
+        case 0:
+            bg.nodes = (int)mon_range(r, 100, 400);
+            break;
+        case 1:
+        case 2:
+            bg.nodes = (int)mon_range(r, 1, 6);
+            break;
+        default:
+            bg.nodes = (int)mon_range(r, 8, 60);
+            break;
+    }
+    mon_fp((uint64_t)bg.nodes * 16 + (uint64_t)bg.maxdepth);
+    if (pick & 1) {
+        case_api(r, bg);
+    } else {
+        case_text(r, gen_text_model(r, &bg, 0), mon_chance(r, 1, 2));
+    }
+}
+
+int main(int argc, char **argv) {
+    mon_init(argc, argv, "C11");
+    s_alloc = mon_guard_allocator();
+    /* initialises the JSON module (cJSON hooks) with the guard allocator: every node, key and print buffer is counted */
+    aws_common_library_init(s_alloc);
+    for (int i = 0; i < F_NFLAGS; ++i) {
+        mon_flag_name(i, s_flag_names[i]);
+    }
+    char path[4096];
+    snprintf(path, sizeof(path), "%s/py.%d", mon_run.outdir, mon_run.slice);
+    s_py = fopen(path, "w");
+    uint64_t c;
+    while (mon_next_case(&c)) {
+        mon_case_begin(c);
+        run_case(c);
+        mon_case_end(mon_flag_count() >= 4);
+    }
+    mon_count("numbers_inexact_within_tolerance", s_inexact);
+    mon_count("numbers_within_symmetric_tolerance_only", s_symmetric_only);
+    if (s_py) {
+        fclose(s_py);
+    }
+    return mon_finish();
 }
